@@ -704,6 +704,38 @@ struct Lab {
                 } else {
                     r.ret = pkick::fn(y2::virtual_ptr<Animal, P>(*a));
                 }
+                if (route == 1) {
+                    // pointers to const objects reach the same v-tables
+                    Seen keep = g_seen;
+                    try {
+                        const Animal& ca = *a;
+                        y2::virtual_ptr<const Animal, P> p1(ca);
+                        check_vptr(p1);
+                        auto& sa = *as_shared_animal(tuple[0]);
+                        std::shared_ptr<const Animal> sca = sa;
+                        y2::virtual_ptr<std::shared_ptr<const Animal>, P> p2(sca);
+                        check_vptr(p2);
+                        if (tuple[0] == cDog) {
+                            const Dog& cd = objs().dog;
+                            y2::virtual_ptr<const Dog, P> p3(cd);
+                            check_vptr(p3);
+                            y2::virtual_ptr<const Animal, P> p4(p3);
+                            check_vptr(p4);
+                            std::shared_ptr<const Dog> scd =
+                                std::static_pointer_cast<const Dog>(sa);
+                            y2::virtual_ptr<std::shared_ptr<const Dog>, P> p5(scd);
+                            check_vptr(p5);
+                            y2::virtual_ptr<std::shared_ptr<const Animal>, P> p6(scd);
+                            check_vptr(p6);
+                            y2::virtual_ptr<std::shared_ptr<const Animal>, P> p7(p5);
+                            check_vptr(p7);
+                        }
+                    } catch (TwThrow&) {
+                        g_seen.vptr_bad = 1;
+                    }
+                    keep.vptr_bad = g_seen.vptr_bad;
+                    g_seen = keep;
+                }
                 break;
             }
             case 5: {
